@@ -503,9 +503,30 @@ func toStrings(bs [][]byte) []string {
 	return out
 }
 
+// c13GasMismatch records the first wrong answer of a get-and-set setter (old value / changed flag) of the running case.
+var c13GasMismatch string
+
+func noteGas(what, name string, selected bool, before *string, after string, old *string, changed bool) {
+	wantChanged := selected && (before == nil || *before != after)
+	var wantOld *string
+	if selected {
+		wantOld = before
+	}
+	if c13GasMismatch == "" && (changed != wantChanged || (old == nil) != (wantOld == nil) || old != nil && *old != *wantOld) {
+		c13GasMismatch = fmt.Sprintf("%s(%s, %q) with the field holding %s (selected by the checker: %v) returned old=%s changed=%v", what, name, after, deref(before), selected, deref(old), changed)
+	}
+}
+
 func writeField(b *boltz.TypedBucket, name string, v TV, checker boltz.FieldChecker) {
 	switch v.K {
 	case "s":
+		if len(v.B)%3 == 2 {
+			// the setter that also reports what was there and whether it changed
+			before := b.GetString(name)
+			old, changed := b.GetAndSetString(name, string(v.B), checker)
+			noteGas("TypedBucket.GetAndSetString", name, checker == nil || checker.IsUpdated(name), before, string(v.B), old, changed)
+			return
+		}
 		b.SetString(name, string(v.B), checker)
 	case "i32":
 		b.SetInt32(name, int32(v.I), checker)
@@ -549,6 +570,10 @@ func writeFieldCtx(ctx *boltz.PersistContext, name string, v TV) {
 		if len(v.B) > 0 && strings.TrimSpace(string(v.B)) != "" && len(v.B)%2 == 1 {
 			// a required string is stored exactly as given (only its emptiness is checked)
 			ctx.SetRequiredString(name, string(v.B))
+		} else if len(v.B)%4 == 0 {
+			before := ctx.Bucket.GetString(name)
+			old, changed := ctx.GetAndSetString(name, string(v.B))
+			noteGas("PersistContext.GetAndSetString", name, ctx.ProceedWithSet(name), before, string(v.B), old, changed)
 		} else {
 			ctx.SetString(name, string(v.B))
 		}
@@ -564,7 +589,11 @@ func writeFieldCtx(ctx *boltz.PersistContext, name string, v TV) {
 	case "sp-nil":
 		ctx.SetStringP(name, nil)
 	case "strlist":
-		ctx.SetStringList(name, toStrings(v.SL))
+		if len(v.SL)%2 == 0 {
+			ctx.GetAndSetStringList(name, toStrings(v.SL))
+		} else {
+			ctx.SetStringList(name, toStrings(v.SL))
+		}
 	case "map":
 		ctx.SetMap(name, v.goValue().(map[string]interface{}))
 	default:
@@ -579,10 +608,16 @@ func checkField(b *boltz.TypedBucket, name string, v TV) string {
 		if g == nil || *g != string(v.B) {
 			return fmt.Sprintf("%s: wrote string %q, GetString = %v", name, v.B, deref(g))
 		}
+		if d, e := b.GetStringWithDefault(name, "dflt"), b.GetStringOrError(name); d != string(v.B) || e != string(v.B) {
+			return fmt.Sprintf("%s: wrote string %q, GetStringWithDefault = %q GetStringOrError = %q", name, v.B, d, e)
+		}
 	case "i32":
 		g32, g64 := b.GetInt32(name), b.GetInt64(name)
 		if g32 == nil || *g32 != int32(v.I) || g64 == nil || *g64 != int64(int32(v.I)) {
 			return fmt.Sprintf("%s: wrote int32 %d, GetInt32 = %v GetInt64 = %v", name, int32(v.I), g32, g64)
+		}
+		if d := b.GetInt32WithDefault(name, -7); d != int32(v.I) {
+			return fmt.Sprintf("%s: wrote int32 %d, GetInt32WithDefault = %d", name, int32(v.I), d)
 		}
 	case "i64":
 		g := b.GetInt64(name)
@@ -604,12 +639,18 @@ func checkField(b *boltz.TypedBucket, name string, v TV) string {
 		if g == nil || !g.Equal(v.time()) {
 			return fmt.Sprintf("%s: wrote time %v, GetTime = %v", name, v.time(), g)
 		}
+		if d := b.GetTimeOrDefault(name, time.Unix(7, 7)); !d.Equal(v.time()) {
+			return fmt.Sprintf("%s: wrote time %v, GetTimeOrDefault = %v", name, v.time(), d)
+		}
 	case "nil", "sp-nil", "tp-nil":
 		if g := b.GetString(name); g != nil {
 			return fmt.Sprintf("%s: wrote null, GetString = %q (null must stay distinguishable from the empty string)", name, *g)
 		}
 		if b.GetInt64(name) != nil || b.GetBool(name) != nil || b.GetTime(name) != nil || b.GetFloat64(name) != nil || b.GetInt32(name) != nil {
 			return fmt.Sprintf("%s: wrote null, a typed getter returned a value", name)
+		}
+		if b.GetStringWithDefault(name, "dflt") != "dflt" || b.GetInt32WithDefault(name, -7) != -7 || !b.GetTimeOrDefault(name, time.Unix(7, 7)).Equal(time.Unix(7, 7)) {
+			return fmt.Sprintf("%s: wrote null, a getter with a default did not return its default", name)
 		}
 	case "list":
 		if d := sameRead(v, b.GetList(name)); d != "" {
@@ -666,6 +707,15 @@ func tvInteresting(v TV) bool {
 }
 
 func runC13(c c13Case) kit.Result {
+	c13GasMismatch = ""
+	res := runC13Inner(c)
+	if res.Err == nil && c13GasMismatch != "" {
+		res.Err = fmt.Errorf("get-and-set setter: %s", c13GasMismatch)
+	}
+	return res
+}
+
+func runC13Inner(c c13Case) kit.Result {
 	res := kit.Result{Classes: []string{"kind:" + c.Kind}}
 	switch c.Kind {
 	case "codec":
